@@ -1079,6 +1079,13 @@ class Config:  # pylint: disable=too-many-instance-attributes
                 return value
 
         if isinstance(value, Config):
+            expected = field.config_type.__schema__ if isinstance(field, ConfigTypeField) else field
+            if value._schema is not expected:
+                # a configuration of some other schema is not a value for this section: its
+                # fields were never validated against the fields declared here
+                raise ValidationError(
+                    self, field, "configuration was built from a different schema"
+                )
             value._parent = self
             value._key = key
         elif isinstance(value, dict) and isinstance(field, (Schema, ConfigTypeField)):
